@@ -477,6 +477,10 @@ mut("c04-normalize-ranged-end", "C04", "location.go", "start, end := ranged.Star
 mut("c07-commit-body-origin-reverted", "C07", "seqio/genbank_subparsers.go", "\t\t\tpars.Line(state, result)\n\t\t\tstate.Clear()\n\n\t\t\tif err := state.Request(toOriginLength(length)); err != nil {", "\t\t\tpars.Line(state, result)\n\n\t\t\tif err := state.Request(toOriginLength(length)); err != nil {", ["COMMIT-BODY|seqio.makeGenbankOriginParser|ORIGIN"], note="the repaired defect, reintroduced")
 mut("c07-commit-body-dblink-late", "C07", "seqio/genbank_subparsers.go", "\t\tstate.Clear()\n\t\tif err := pairParser(state, result); err != nil {\n\t\t\treturn err\n\t\t}\n", "\t\tif err := pairParser(state, result); err != nil {\n\t\t\treturn err\n\t\t}\n\t\tstate.Clear()\n", ["COMMIT-BODY|seqio.genbankDBLinkParser|DBLINK"], note="committing after the first pair leaves its error uncommitted")
 
+
+mut("c02-fill-silent-append-idiom", "C02", "location.go", "func (joined Joined) Shift(i, n int) Location {\n\tlocs := make([]Location, len(joined))\n\tfor j, loc := range joined {\n\t\tlocs[j] = loc.Shift(i, n)\n\t}\n\treturn Join(locs...)\n}", "func (joined Joined) Shift(i, n int) Location {\n\tvar locs []Location\n\tfor _, loc := range joined {\n\t\tlocs = append(locs, loc.Shift(i, n))\n\t}\n\treturn Join(locs...)\n}", silent=True, note="the append idiom builds the same list")
+mut("c02-fill-append-skips", "C02", "location.go", "func (joined Joined) Shift(i, n int) Location {\n\tlocs := make([]Location, len(joined))\n\tfor j, loc := range joined {\n\t\tlocs[j] = loc.Shift(i, n)\n\t}\n\treturn Join(locs...)\n}", "func (joined Joined) Shift(i, n int) Location {\n\tvar locs []Location\n\tfor _, loc := range joined {\n\t\tif loc.Len() == 0 {\n\t\t\tcontinue\n\t\t}\n\t\tlocs = append(locs, loc.Shift(i, n))\n\t}\n\treturn Join(locs...)\n}", ["FILL|gts.Joined.Shift|append#1"])
+
 if __name__ == "__main__":
     here = os.path.dirname(os.path.abspath(__file__))
     ids = [m["id"] for m in M]
